@@ -15,6 +15,7 @@ C16.state  : no function of the OpenAPI pipeline memoises or writes module-level
 """
 
 import ast
+import copy
 import re
 
 from ..core import iter_own, norm, short
@@ -116,7 +117,14 @@ def _bulk(ctx, index):
     # every expression that takes the emitters' suffix off a name, wherever it sits (argument of an applied lambda, an
     # explaining variable, ...): <N>.rpartition(S)[0] / <N>[:-len(S)] / <N>.removesuffix(S) / <N>[:-k] / <N>.rstrip(S)
     inv = []
-    for n in iter_own(f.node):
+    # ... in openapi_bulk's closure or in a package helper it hands the name to (`request_body_from_body_name(body_name)`)
+    helpers = []
+    for c_ in ast.walk(f.node):
+        q_ = index.callee(f.mod, c_, f) if isinstance(c_, ast.Call) else None
+        h_ = index.funcs.get(q_) if q_ else None
+        if h_ is not None and h_ not in helpers and h_.mod.name.startswith("cdd.compound.openapi"):
+            helpers.append(h_)
+    for n in [x for g in [f] + helpers for x in iter_own(g.node)]:
         base = None
         if isinstance(n, ast.Subscript) and isinstance(n.value, ast.Call) and isinstance(n.value.func, ast.Attribute) and n.value.func.attr in ("rpartition", "partition", "split", "rsplit") and isinstance(n.value.func.value, ast.Name):
             if n.value.args and isinstance(n.value.args[0], ast.Constant) and n.value.args[0].value == suffix:
@@ -197,15 +205,32 @@ def run(ctx):
         nonlocal args, d, k, mt, n, ok, t, tpl, v
         # ---------------------------------------------------------------- refs
         uses = []
+        # an explaining variable: bound exactly once, by a statement of the function's own top-level block (so it runs
+        # before every later use, whatever the branch), to a constant template
+        nbinds = {}
+        for n in iter_own(f.node):
+            if isinstance(n, (ast.Assign, ast.AnnAssign, ast.AugAssign, ast.NamedExpr, ast.For, ast.comprehension)):
+                tg = n.targets if isinstance(n, ast.Assign) else [n.target]
+                for t_ in tg:
+                    for x in ast.walk(t_):
+                        if isinstance(x, ast.Name):
+                            nbinds[x.id] = nbinds.get(x.id, 0) + 1
+        explaining = {}
+        for st in f.node.body:
+            if isinstance(st, (ast.Assign, ast.AnnAssign)) and st.value is not None:
+                t_ = st.targets[0] if isinstance(st, ast.Assign) and len(st.targets) == 1 else getattr(st, "target", None)
+                if isinstance(t_, ast.Name) and nbinds.get(t_.id) == 1 and t_.id not in f.params and _template(st.value)[0] is not None:
+                    explaining[t_.id] = st
         for n in iter_own(f.node):
             if isinstance(n, ast.Dict):
                 for k, v in zip(n.keys, n.values):
                     if isinstance(k, ast.Constant) and k.value == "$ref":
+                        if isinstance(v, ast.Name) and v.id in explaining and explaining[v.id].lineno < v.lineno:
+                            v = ast.copy_location(copy.deepcopy(explaining[v.id].value), v)
+                            ast.fix_missing_locations(v)
                         uses.append((v, n))
         # a private helper that builds the reference object: `return {"$ref": TEMPLATE.format(k=<param>)}`; every call
         # of it in the emitter is a use, with the argument substituted for the parameter
-        import copy
-
         from ..core import RefGraph
         from ..region import Region
 
